@@ -5,6 +5,7 @@ CONSTANTS
   MaxQ = @MAXQ@
   Shard = @SHARD@
   NShards = @NSHARDS@
+  ShardFrom = @SHARDFROM@
   Emit = @EMIT@
 INVARIANTS @INVS@
 CHECK_DEADLOCK FALSE
